@@ -331,7 +331,8 @@ class HybridLoad:
             # monthly average cooling load (or heat rejection) in kW
             current_month_avg_cl = self.monthly_avg_cl[i]
 
-            if current_month_peak_cl != 0.0:
+            # no rejection in this month: no pulse and no duration, whatever the previous day (in the two-day window) holds
+            if self.monthly_peak_cl[i] != 0.0:
                 peak_duration, _, _ = self.perform_current_month_simulation(
                     current_two_day_cl_load,
                     current_month_peak_cl,
@@ -358,7 +359,8 @@ class HybridLoad:
             # monthly average heating load (or heat extraction) in kW
             current_month_avg_hl = self.monthly_avg_hl[i]
 
-            if current_month_peak_hl != 0.0:
+            # no extraction in this month: no pulse and no duration
+            if self.monthly_peak_hl[i] != 0.0:
                 peak_duration, _, _ = self.perform_current_month_simulation(
                     current_two_day_hl_load,
                     current_month_peak_hl,
